@@ -204,6 +204,13 @@ func genC15(t *Tape) (*SrvScenario, *c15Info, bool) {
 			plan.Gaps = append(plan.Gaps, g)
 			prev = c
 		}
+		if !t.Has("cutmode") && len(plan.Gaps) >= 2 && t.Chance(1, 40) {
+			// a slow talker: two pauses of 13-20 simulated seconds (each below the server's 25 s idle limit, together above it)
+			for k := 0; k < 2; k++ {
+				plan.Gaps[1+t.Choose(len(plan.Gaps)-1)] = time.Duration(13000+t.Choose(7000)) * time.Millisecond
+			}
+			sc.LongPauses = true
+		}
 		// classify the first cut that is not a frame boundary
 		cls := "none"
 		for _, c := range cs {
